@@ -66,7 +66,7 @@ type instModel struct {
 // TestPropSetStateModel: sequential histories of reports / removals / resizes against the accounting model.
 func TestPropSetStateModel(t *testing.T) {
 	sub := stats.NewSub("setstate-model", "rapid state machine on NewGlobalFlowControl(max-in-flight): ops SetState(instance, id, n>=0), removal (n<0), Resize; after every step DebugInfo count == total == sum of the model, per-instance details == model, returned count == model, sum <= max(limit, sum before), decreases applied, stale ids refused; non-trivial = history has a resize below the current sum, a removal, or a refused report; distinct by FNV-64 of the op trace")
-	stats.Check(t, stats.N(20000, 300000), func(t *rapid.T) {
+	stats.Check(t, stats.N(40000, 300000), func(t *rapid.T) {
 		max := int32(rapid.IntRange(0, 12).Draw(t, "max"))
 		fc := sfc.NewGlobalFlowControl(proxyv1alpha1.FlowControlSchema{Name: "s", FlowControlSchemaConfiguration: proxyv1alpha1.FlowControlSchemaConfiguration{
 			GlobalMaxRequestsInflight: &proxyv1alpha1.MaxRequestsInflightFlowControlSchema{Max: max}}})
@@ -235,7 +235,7 @@ func acquire(inst string, id int64, reqs ...proxyv1alpha1.RateLimitAcquireReques
 // TestPropDoAcquire: grants through RateLimiter.DoAcquire (both schema types).
 func TestPropDoAcquire(t *testing.T) {
 	sub := stats.NewSub("doacquire", "rapid: one upstream with a global-count max-in-flight schema and a token-bucket schema on the real limiter; a sequence of DoAcquire calls from 3 instances with amounts in [-3, 2*limit]; oracle: negative ask => error result and no state change; max-in-flight accepted sum <= limit (ledger of accepted reports); token bucket: each grant in {n, n/2, n/4, n/8} and <= asked, never negative, and the sum of grants in every window of the run <= burst + qps*T (T from timestamps bracketing the window); non-trivial = the sequence contains a negative ask, a partial grant or a refusal; distinct by FNV-64 of the op trace")
-	stats.Check(t, stats.N(1500, 20000), func(t *rapid.T) {
+	stats.Check(t, stats.N(3000, 20000), func(t *rapid.T) {
 		box := limbox.New("local", 1, "srv")
 		box.LeadAll()
 		mif := int32(rapid.IntRange(1, 20).Draw(t, "mifMax"))
